@@ -32,7 +32,9 @@ OPEN_STATEMENTS = [
     'covered here by the oracle against the operator built from the tensors by the checker',
     'matvec_sound (matvec_term_sound + matvec_linear), diagonal_term_sound and parallel_matvec_sound are proved at the '
     'level stated in Properties/C06.lean (per term resp. per entry); diagonal_sound covers the sum over the terms',
-    'truncated boson / quadrature matrices (sqrt amplitudes): numeric correspondence only',
+    'truncated boson matrices: boson_term_sound_partial relates the Model column (amplitude sqrt(R)) of a word that '
+    'does not hit the cut-off to the polynomial Spec up to diag(sqrt(n!)); the cut-off, the index arithmetic, the '
+    'float sum over terms and the QuadOperator route are numeric correspondence only',
     'expectation / variance / eigenspectrum: contract-only glue over scipy, numeric correspondence',
     'OS-level behaviour of multiprocessing.Pool (fork, pickling, worker death) is not expressible',
 ]
